@@ -93,10 +93,28 @@ class World:
         self.sid_map = {}  # (requester side, sid) -> uid issued last with that id
         self.sid_queue = {}  # (requester side, sid) -> uids in issue order, consumed by the responder's handler calls
         self.frozen = False  # set when the trace is taken: later events (cleanup) are not part of the run
+        self.cur_cx = 0
+        self.last_recv_cx = {}
 
     def bind(self, side, sid, uid):
         self.sid_map[(side, sid)] = uid
-        self.sid_queue.setdefault((side, sid), collections.deque()).append(uid)
+        self.sid_queue.setdefault((side, sid), []).append([uid, self.cur_cx, False])
+
+    def take(self, side, sid, cx):
+        """The interaction a request received on (requester side, sid) over connection cx belongs to: ids are reused
+        after wrap-around and after reconnects and frames may be delivered late, so it is the first not yet consumed
+        interaction issued with that id on that connection (per-stream wire order is FIFO), else the latest one issued
+        on an earlier connection (a request made while the reconnect was in progress)."""
+        q = self.sid_queue.get((side, sid)) or []
+        for ent in q:
+            if not ent[2] and ent[1] == cx:
+                ent[2] = True
+                return ent[0]
+        for ent in reversed(q):
+            if not ent[2] and ent[1] < cx:
+                ent[2] = True
+                return ent[0]
+        return None
 
     def ev(self, side, kind, **kw):
         if self.frozen:
@@ -136,11 +154,16 @@ class Link:
         self.cut_after_mode = 'eof'
         self.on_cut_after = None
         self.delivered_msgs = 0
+        self.blackhole = False  # silently drops everything written from now on (a peer that went quiet)
+        self.auto = False  # pumped regime: whatever is written is delivered on the next loop iteration
+        self._auto_scheduled = False
 
     # sender side
     def write(self, data: bytes):
         if self.cut_mode is not None or self.sender_closed:
             return False
+        if self.blackhole:
+            return True
         self.written += len(data)
         if self.message_mode:
             self.msgs.append(bytes(data))
@@ -148,7 +171,23 @@ class Link:
         else:
             self.buf += data
             self.history += data
+        if self.auto:
+            self.schedule_auto()
         return True
+
+    def schedule_auto(self):
+        if not self._auto_scheduled and self.sink is not None:
+            self._auto_scheduled = True
+            self.world.loop.call_soon(self._auto_deliver)
+
+    def _auto_deliver(self):
+        self._auto_scheduled = False
+        if not self.auto:
+            return
+        if self.message_mode:
+            asyncio.ensure_future(self.deliver_messages())
+        else:
+            self.deliver_bytes()
 
     def pending(self):
         return len(self.msgs) if self.message_mode else len(self.buf)
@@ -279,6 +318,8 @@ class FakeWriter:
         self.closed = True
         self.world.ev(self.side, 'transport_close')
         self.link.sender_closed = True
+        if self.link.auto:
+            self.link.schedule_auto()
         if self.own_reader_sink is not None:
             self.own_reader_sink.feed_eof()
         self.unblock()
@@ -351,6 +392,7 @@ def transport_classes():
             async for frame in gen:
                 s = snap_frame(frame)
                 self.world.last_recv_sid[self.side] = s['sid']
+                self.world.last_recv_cx[self.side] = self.cx
                 self.world.ev(self.side, 'recv', f=s, cx=self.cx)
                 yield frame
 
@@ -495,6 +537,12 @@ class Conn:
         for tr in self.transport.values():
             tr.cx = self.index
 
+    def set_auto(self, on):
+        for l in self.link.values():
+            l.auto = on
+            if on and l.pending():
+                l.schedule_auto()
+
     def pending(self):
         return sum(l.pending() for l in self.link.values())
 
@@ -542,6 +590,7 @@ class ConnSet:
 
     def __init__(self):
         self.conns = []
+        self.auto = False
 
     @property
     def cur(self):
@@ -549,6 +598,11 @@ class ConnSet:
 
     def __getattr__(self, name):
         return getattr(self.conns[-1], name)
+
+    def set_auto(self, on):
+        self.auto = on
+        for c in self.conns:
+            c.set_auto(on)
 
     async def pump(self):
         moved = False
